@@ -169,3 +169,23 @@ package keygen
 //@   ensures result1 == nil ==> result0 != nil
 //@   ensures typeis(result0, *round.Abort) ==> result0.(*round.Abort).Err != nil
 //@   ensures typeis(result0, *round.Output) ==> result0.(*round.Output).Result != nil
+
+// ---- content templates (C05): the handler asks every round for the value it decodes into; with the round's state
+// invariant this never panics, and a broadcast round always returns a template (refinement of round.BroadcastRound)
+//@ func (*round5).MessageContent
+//@   nopanic[C05]
+//@   requires r != nil && k4ok(r.round4)
+//@   modifies nothing
+//@   allocates
+//@ func (*round5).BroadcastContent
+//@   nopanic[C05]
+//@   requires r != nil && k4ok(r.round4)
+//@   modifies nothing
+//@   allocates
+//@   ensures result != nil
+//@ func (*round3).BroadcastContent
+//@   nopanic[C05]
+//@   requires k3ok(r)
+//@   modifies nothing
+//@   allocates
+//@   ensures result != nil
